@@ -128,7 +128,7 @@ def check_register(rep, db, f, inst, style):
         backend = [i for i, e in enumerate(evs) if e.kind == "CALL" and q.short(e.a) == "impl_register_callback"]
         pushes = [i for i, e in enumerate(evs) if e.kind == "CALL" and q.short(e.a) in ("push_back", "emplace_back", "insert") and e.c is not None and "callback_keys" in fmt(e.c)]
         finds = [i for i, e in enumerate(evs) if e.kind == "CALL" and q.short(e.a) == "find"]
-        locks = [i for i, e in enumerate(evs) if e.kind == "CALL" and q.short(e.a) in ("lock_guard", "unique_lock") and "callback_lock" in " ".join(fmt(a) for a in e.b)]
+        locks = [i for i, e in enumerate(evs) if e.kind == "CALL" and q.short(e.a) in q.EXCLUSIVE_GUARDS and "callback_lock" in " ".join(fmt(a) for a in e.b)]
         unlocks = [i for i, e in enumerate(evs) if e.kind == "UNLOCK"]
         bad = None
         ordered = [i for i, e in enumerate(evs) if e.kind == "CALL" and q.short(e.a) in ("lower_bound", "upper_bound", "equal_range", "binary_search")]
@@ -242,7 +242,7 @@ def check_unregister(rep, db, f, inst, style):
         n_do += 1
         erases = [i for i, e in enumerate(evs) if e.kind == "CALL" and q.short(e.a) == "erase" and e.c is not None and "callback_keys" in fmt(e.c)]
         finds = [i for i, e in enumerate(evs) if e.kind == "CALL" and q.short(e.a) == "find"]
-        locks = [i for i, e in enumerate(evs) if e.kind == "CALL" and q.short(e.a) in ("lock_guard", "unique_lock") and "callback_lock" in " ".join(fmt(a) for a in e.b)]
+        locks = [i for i, e in enumerate(evs) if e.kind == "CALL" and q.short(e.a) in q.EXCLUSIVE_GUARDS and "callback_lock" in " ".join(fmt(a) for a in e.b)]
         unlocks = [i for i, e in enumerate(evs) if e.kind == "UNLOCK"]
         bad = None
         pops = [i for i, e in enumerate(evs) if e.kind == "CALL" and q.short(e.a) in ("pop_back",) and e.c is not None and "callback_keys" in fmt(e.c)]
